@@ -144,11 +144,16 @@ def check_C11(ctx):
         st[k] += st2[k]
     rej = ctx.validate_shards("StepTrace", shards, mode="C11", heap="4g")
     ctx.binding_selftest("StepTrace", [s for s in shards if "forms" in s] or shards, "C11")
+    # "no operand FETCH uses a cell farther than floor(R/2)": a fetch is observable only through its effect, so this clause is
+    # decided by comparing the same limit-focused steps with the reference interpreter, whose fetches are folded by construction
+    rej_sem = ctx.validate_shards("StepTrace", shards, mode="C01", heap="4g")
+    rej_sem = [x for x in rej_sem if x not in rej]
     ctx.cov["traces_validated_against_impl"] = st["steps"]
     ctx.cov["evaluations"] = st["steps"]
     ctx.cov["distinct_nontrivial"] = st["limited"]
     ctx.sample(read_line(shards[0], 1))
     reproduce_steps(ctx, "C11", rej)
+    reproduce_steps(ctx, "C01", rej_sem, cap=10)
 
 
 def replay_step(ctx, payload):
